@@ -17,16 +17,17 @@ type FieldSpec struct {
 	Default       *Default // default: tag
 	AutoTime      string   // "", "autoCreateTime", "autoCreateTime:milli", "autoUpdateTime:nano", … or "name" (CreatedAt/UpdatedAt by name)
 	PrimaryKey    bool
-	AutoIncTag    string // "", "autoIncrement", "autoIncrement:false"
-	Marker        bool   // the marker column of the oracle
-	Shadowed      bool   // generator note: an outer field of the model takes this field's column (evolve skips it)
-	Index         string // C20: "", "index", "index:name", "uniqueIndex", "index:,composite:grp" …
-	Unique        bool   // C20: unique
-	Check         string // C20: text after "check:"
-	CheckName     string // C20: explicit constraint name ("" = naming strategy)
-	Size          int    // C20: size:
-	NotNull       bool   // C20: not null
-	DistinctValue bool   // values of this column must be pairwise distinct (unique / key)
+	AutoIncTag    string   // "", "autoIncrement", "autoIncrement:false"
+	Marker        bool     // the marker column of the oracle
+	Shadowed      bool     // generator note: an outer field of the model takes this field's column (evolve skips it)
+	Index         string   // C20: "", "index", "index:name", "uniqueIndex", "index:,composite:grp" …
+	Unique        bool     // C20: unique
+	Check         string   // C20: text after "check:"
+	CheckName     string   // C20: explicit constraint name ("" = naming strategy)
+	Size          int      // C20: size:
+	NotNull       bool     // C20: not null
+	Extra         []string // C20: further tag parts without effect on the stored values (type:varchar(n), comment:…, precision:…)
+	DistinctValue bool     // values of this column must be pairwise distinct (unique / key)
 
 	// embedded struct
 	Embedded *StructSpec
@@ -109,6 +110,7 @@ func (f *FieldSpec) tagParts() []string {
 	if f.NotNull {
 		parts = append(parts, "not null")
 	}
+	parts = append(parts, f.Extra...)
 	if f.Unique {
 		parts = append(parts, "unique")
 	}
